@@ -772,6 +772,28 @@ fn rec(
     Ok(())
 }
 
+/// Iterative run for long step limits (no recursion, one state clone per instruction): the final
+/// result after `limit` steps, following the single admissible outcome of every step.  Err if some
+/// step is set-valued (the long-run families avoid those corners).
+pub fn ref_run_long(s: &RState, limit: usize) -> Result<Final, String> {
+    let mut cur = s.clone();
+    for _ in 0..limit {
+        let Some(item) = cur.exec.pop() else {
+            break;
+        };
+        let o = ref_perform_program(&cur, &item)?;
+        if o.len() != 1 {
+            return Err("set-valued step in a long run".into());
+        }
+        match o[0].kind {
+            Kind::Ok => cur = o.into_iter().next().unwrap().st,
+            Kind::Skip => {}
+            Kind::Fatal => return Ok(Final::Aborted(cur)),
+        }
+    }
+    Ok(Final::Done(cur))
+}
+
 /// The plain (current-loop) trace: every pop counts as a step.  Returns the
 /// state after each pop (index 0 = initial) until halt, abort or `max_pops`;
 /// follows the first admissible outcome where the reference is set-valued.
